@@ -52,8 +52,8 @@ REQUIRED_TAGS = ['form=check', 'form=sections', 'form=to_index', 'form=from_inde
                  'same-distinct-knots-different-mult', 'same-distinct-knots-different-mult/2',
                  'same-distinct-knots-different-mult/4']
 KNOWN_LABELS = ['edge-curves-homogeneous-endpoint-test', 'coons-rational-unequal-corner-weights',
-                'edge-surfaces-6-rational-refused', 'const-par-curve-periodic-end',
-                'const-par-curve-periodic-few-functions']
+                'edge-surfaces-6-rational-refused', 'const-par-curve-periodic-end']
+# ('const-par-curve-periodic-few-functions' is fixed with periodic insert_knot)
 
 ASSUMPTIONS = [
     'factories (edge_curves, coons_patch, edge_surfaces) are modelled for inputs whose bases are identical after '
@@ -984,8 +984,7 @@ def classify(s, res=None):
             if res is None or any('raised IndexError' in m for m in msgs):
                 return 'const-par-curve-periodic-end'
             return None
-        if info['n'] < info['p'] + info['k']:
-            return 'const-par-curve-periodic-few-functions'     # region of the periodic insert_knot defects (C04)
+        # (`const-par-curve-periodic-few-functions`: fixed with periodic insert_knot)
     return None
 
 
